@@ -17,9 +17,10 @@ from lib import log  # noqa: E402
 
 
 TIE_TARGETS = {
-    "C01": ["Gen/TieShares.vo"], "C03": ["Gen/TieShares.vo"], "C04": ["Gen/TieUsd.vo"],
-    "C05": ["Gen/TieUsd.vo", "Gen/TieShares.vo"], "C12": ["Gen/TieOracle.vo"], "C13": ["Gen/TieOracle.vo"],
-    "C14": ["Gen/TieOracle.vo"], "C19": ["Gen/TieGas.vo"],
+    "C01": ["Gen/TieShares.vo"], "C03": ["Gen/TieShares.vo"], "C04": ["Gen/TieUsd.vo", "Gen/TieSlash.vo"],
+    "C05": ["Gen/TieUsd.vo", "Gen/TieShares.vo"], "C06": ["Gen/TieValset.vo"], "C12": ["Gen/TieOracle.vo"],
+    "C13": ["Gen/TieOracle.vo"], "C14": ["Gen/TieOracle.vo"], "C15": ["Gen/TieEpochs.vo"], "C17": ["Gen/TieFees.vo"],
+    "C19": ["Gen/TieGas.vo"],
 }
 
 
